@@ -79,6 +79,8 @@ def _payload_names(expr):
 
 
 def check(ctx):
+    ctx.exhaustive = True
+    ctx.bounds.append("loops unrolled once in path enumeration; the extracted HttpStream model is explored to a fix-point")
     ctx.rule("R11.1", "handle_hook awaits wait_for_resume; HookCompleted only after handle_hook returned")
     ctx.rule("R11.2", "message sent after its hook, once, payload re-read from the flow/message object")
     ctx.rule("R11.3", "HTTP: nothing reaches the destination between a message hook and check_killed; killed path shape")
